@@ -978,6 +978,15 @@ func (s *Session) safety(fr *Frame, st *State, kind string, cond T, what string)
 	if !fr.top && kind != "txnsize" {
 		return
 	}
+	// `option nosafety`: panic-freedom of this function is not claimed (partial correctness: a run that panics does
+	// not return, so the condition may be assumed afterwards); recorded as an assumption in the evidence
+	if fr.contract != nil && fr.contract.Options["nosafety"] != "" && kind != "txnsize" {
+		if fr.nSafety["_noted"] == 0 {
+			fr.nSafety["_noted"] = 1
+			s.note("ASSUMED in %s: option nosafety - bounds / nil / type-assertion panics are not checked here (partial correctness)", fr.fn.String())
+		}
+		return
+	}
 	fr.nSafety[kind]++
 	name := fmt.Sprintf("%s/safety:%s#%d", fr.oblPfx, kind, fr.nSafety[kind])
 	if !fr.top {
